@@ -330,7 +330,7 @@ func (u *UnitsDefinition) updateReCache() {
 		}
 	}
 	parts = append(parts, fmt.Sprintf(
-		"(?:|(?P<g1>[0-9]+(|.[0-9]+))\\s*(|%s|%s|%s|%s))",
+		"(?:|(?P<g1>[0-9]+(|\\.[0-9]+))\\s*(|%s|%s|%s|%s))",
 		regexp.QuoteMeta(u.BaseUnitValue.NameShortSingular()),
 		regexp.QuoteMeta(u.BaseUnitValue.NameShortPlural()),
 		regexp.QuoteMeta(u.BaseUnitValue.NameLongSingular()),
